@@ -5,7 +5,6 @@ import (
 	"strings"
 
 	"github.com/smarthome-go/homescript/v3/homescript/errors"
-	"github.com/smarthome-go/homescript/v3/homescript/lexer/util"
 )
 
 var HMS_BUILTIN_TYPES = []string{"null", "int", "float", "range", "bool", "str"}
@@ -110,12 +109,7 @@ type ObjectTypeField struct {
 }
 
 func (self ObjectTypeField) String() string {
-	var key string
-	if !util.IsIdent(self.FieldName.ident) {
-		key = fmt.Sprintf("\"%s\"", self.FieldName.ident)
-	} else {
-		key = self.FieldName.ident
-	}
+	key := printObjectKey(self.FieldName.ident)
 	return fmt.Sprintf("%s: %s", key, self.Type)
 }
 
